@@ -163,4 +163,10 @@ theorem bridge_gaussian_cache : Gen.C13.gaussian_cache_uses =
      "get_unit_prediction_intervals: store self.alpha_to_nonreporting_lower_bounds[alpha]",
      "get_unit_prediction_intervals: store self.alpha_to_nonreporting_upper_bounds[alpha]"] := rfl
 
+/-- **C13 on the source**: in the loop nest as it is written in `/repo/src` today, every aggregate-interval call reads the unit
+    bounds that were stored for its own estimand — for every request and every earlier content of the cache -/
+theorem source_cell_independent (ests levels alphas : List ℕ) (c : Cache) :
+    ∀ r ∈ reads (Gen.C13.client_trace ests levels alphas) c, r.2.2.2 = some r.2.1 := by
+  rw [bridge_client_trace]; exact cell_independent ests levels alphas c
+
 end ElexModel.Loops
